@@ -182,7 +182,62 @@ func p3HighWater(p *Prog, o *obls) {
 						guarded = "a comparison with the field's previous value at every call of this helper"
 					}
 				}
+				// every test that decides the store is of a known kind: a comparison with the field's previous value, a
+				// configuration or first-packet test (a state field read directly and compared with a constant, or a
+				// boolean field), or a test that reads no state of the object at all. A test of something *computed* from
+				// other mutable state (the age of the time reference, a counter difference) is a second way in: it moves
+				// the mark for a packet that the comparison would have turned away.
+				foreign := ""
 				if guarded != "" {
+					direct := func(v ssa.Value) bool {
+						for {
+							switch c := v.(type) {
+							case *ssa.Convert:
+								v = c.X
+								continue
+							case *ssa.ChangeType:
+								v = c.X
+								continue
+							}
+							break
+						}
+						return readsState(v)
+					}
+					for cb := range transitiveControlDeps(fn, pdom, st.Block()) {
+						c := ifCond(cb)
+						if c == nil || p.backwardReaches(c, readsSelf) {
+							continue
+						}
+						c = normFact(condFact{c, true}).cond
+						if direct(c) {
+							continue
+						}
+						if bo, ok := c.(*ssa.BinOp); ok {
+							_, cx := bo.X.(*ssa.Const)
+							_, cy := bo.Y.(*ssa.Const)
+							if cx && direct(bo.Y) || cy && direct(bo.X) || cx && cy {
+								continue
+							}
+						}
+						var through []string
+						p.backwardReaches(c, func(v ssa.Value) bool {
+							if readsState(v) {
+								fk2 := fieldKeyAddr(v.(*ssa.UnOp).X.(*ssa.FieldAddr))
+								if fv := fieldOfAddr(v.(*ssa.UnOp).X.(*ssa.FieldAddr)); fv != nil && !isSyncType(fv.Type()) && p.writtenOutsideConstruction(fk2) {
+									through = append(through, fieldName(fk2))
+								}
+							}
+							return false
+						})
+						if len(through) > 0 {
+							sort.Strings(through)
+							foreign = fmt.Sprintf("the test at %s, computed from %s, also decides the store and is no comparison with the mark's previous value: a packet the comparison turns away moves the mark all the same", p.instrPosV(c), strings.Join(dedupe(through), ", "))
+						}
+					}
+				}
+				if foreign != "" {
+					o.bad("P3", key, p.instrPos(st), foreign)
+				} else if guarded != "" {
 					o.ok("P3", key, p.instrPos(st), "the store is control dependent on "+guarded)
 				} else {
 					o.bad("P3", key, p.instrPos(st), "the high-water mark is overwritten without a comparison with its previous value and outside a first-packet branch: an out-of-order packet moves it backwards")
@@ -2510,4 +2565,24 @@ func paramBehind(p *Prog, v ssa.Value) *ssa.Parameter {
 		}
 	}
 	return nil
+}
+
+// writtenOutsideConstruction: some function other than a constructor or an option closure stores into the field.
+func (p *Prog) writtenOutsideConstruction(fk string) bool {
+	if p.wocCache == nil {
+		p.wocCache = map[string]bool{}
+		for _, fn := range p.Funcs {
+			if fn.Blocks == nil || isOptionClosure(fn) || isConstructor(p, fn) {
+				continue
+			}
+			instrsOf(fn, func(in ssa.Instruction) {
+				if st, ok := in.(*ssa.Store); ok {
+					if fa, ok := st.Addr.(*ssa.FieldAddr); ok && !freshlyBuilt(p, fa, fn) {
+						p.wocCache[fieldKeyAddr(fa)] = true
+					}
+				}
+			})
+		}
+	}
+	return p.wocCache[fk]
 }
